@@ -253,10 +253,13 @@ Proof. vm_compute. reflexivity. Qed.
    is ever false: clauses 10.1 (not released while held), 10.2 (released callback at most once), 10.3 (fired once after an invalidation, at rest) (and (p, 9): the model's observations always parse).  [mon_only keep] is [Spec.mon] with the reported clauses filtered
    by [keep]; [proved] is the list below.  So these monitors cannot raise an alarm on an implementation that behaves like the
    model, and the model satisfies the property in exactly the form the checks evaluate it.
-   NOT covered by this theorem (full statement: the same with [mon] in place of [mon_only proved]): the Access clauses 10.4 - 10.7
-   (value passed = current value; invalidated => callback context cancelled; the callback's result returned only from an unraced
-   invocation, re-invocation at rest; resolver error / Canceled returned as such).  They are tied to the model by the differential
-   check on every trace and by the Access theorems above, not by a proof about the monitors' own bookkeeping. *)
+   The Access clauses 10.4 (value passed = current value) and 10.5 (invalidated => callback context cancelled) are covered by the
+   second theorem below, for the configurations with generation-unique resolver values ([k] and [k; 0]).
+   NOT covered (full statement: the same with [mon] in place of [mon_only ...], for every configuration): the Access clauses
+   10.6 (the callback's result returned only from an unraced invocation; re-invocation at rest) and 10.7 (resolver error /
+   Canceled returned as such), and 10.4 / 10.5 in the constant-value configuration [k; 1] (the invariants behind the monitors'
+   idea of the stored generation are proved for generation-unique values only).  Those remain tied to the model by the
+   differential check on every trace and by the Access theorems above, not by a proof about the monitors' own bookkeeping. *)
 Theorem c10_model_satisfies_monitors_clauses : forall cfg evs,
   monitor (mon_only proved) 0 (minit cfg) [] evs (run_obs step_opt (hinit cfg) evs) = [].
 Proof. exact model_satisfies_monitors_clauses. Qed.
@@ -270,3 +273,20 @@ Print Assumptions c10_model_run_check_clean_clauses.
 
 Example c10_proved_clauses : forallb proved [(10, 1); (10, 2); (10, 3); (10, 9)]%nat = true.
 Proof. reflexivity. Qed.
+
+(* the same for the configurations with generation-unique resolver values, with the Access clauses 10.4 and 10.5 in addition *)
+Theorem c10_model_satisfies_monitors_clauses_acc : forall cfg evs,
+  match cfg with [_; c] => c = 0%N | _ => True end ->
+  monitor (mon_only proved_acc) 0 (minit cfg) [] evs (run_obs step_opt (hinit cfg) evs) = [].
+Proof. exact model_satisfies_monitors_clauses_acc. Qed.
+Print Assumptions c10_model_satisfies_monitors_clauses_acc.
+
+Theorem c10_model_run_check_clean_clauses_acc : forall cfg evs,
+  match cfg with [_; c] => c = 0%N | _ => True end ->
+  length (run_obs step_opt (hinit cfg) evs) = length evs ->
+  run_check step_opt (mon_only proved_acc) (hinit cfg) (minit cfg) evs (run_obs step_opt (hinit cfg) evs) = [].
+Proof. exact model_run_check_clean_clauses_acc. Qed.
+Print Assumptions c10_model_run_check_clean_clauses_acc.
+
+Example c10_proved_acc_clauses : forallb proved_acc [(10, 1); (10, 2); (10, 3); (10, 4); (10, 5); (10, 9)]%nat = true /\ proved_acc (10, 6)%nat = false /\ proved_acc (10, 7)%nat = false.
+Proof. repeat split; reflexivity. Qed.
